@@ -16,7 +16,7 @@ RULE = ("file alphabet: 5 single files with the same columns (3 / 1 / 0 / 3 / 4 
         "the working directory, './'-prefixed, bare names in the working directory} x shapes flat / hive / two-level hive "
         "(verify=False in quick, both in thorough); memory file-system with three spellings x {fs=, open_with=}. Directory content: the five files plus stray non-Parquet files, a "
         "_common_metadata and one '.parq' file; every directory holding a subset of 1..3 of the files. Sub-datasets "
-        "{plain, partitioned, categorical} x {paths, objects, merge} x verify x root, lists of 2..3; lists mixing files and "
+        "{plain, partitioned, categorical, directory of single files summarised by merge() through the fast and the legacy path} x {paths, objects, merge} x verify x root, lists of 2..3; lists mixing files and "
         "sub-datasets. Schema-incompatible file (7 kinds: one dtype, one name, one extra column, column order, text/bytes, "
         "everything) at every position x {paths, objects, merge() default, directory, glob} under verification (must raise). "
         "Categorical label unions of 127 / 128 / 300 labels (quick) and 32768 / 40000 (thorough) from files below each width; "
@@ -28,7 +28,7 @@ RULE = ("file alphabet: 5 single files with the same columns (3 / 1 / 0 / 3 / 4 
         "(spec-level reader: num_rows, file_path of every row group) and _common_metadata (schema, no row groups); "
         "non-trivial = a dataset with >= 1 row compared")
 ASSUMPTIONS = ["with an inferred root, partition columns are judged only when the listed files lie in >= 2 distinct "
-               "top-level directories (documented ambiguity)", "a path is not repeated inside one list",
+               "top-level directories (documented ambiguity); a directory opened by name is its own root and is always judged", "a path is not repeated inside one list",
                "a file that differs only in pandas-level typing (categorical vs plain text, nullability) has the same "
                "Parquet schema and is not expected to be rejected"]
 
@@ -95,7 +95,7 @@ def points(tier):
                 pts.append({"shape": shape, "entry": entry, "verify": verify, "root": "inferred", "maxlen": 3,
                             "dirvar": "subsets"})
     # sub-datasets
-    for kind in ("plain", "part", "cat"):
+    for kind in ("plain", "part", "cat", "merged"):
         for entry in ("paths", "objects", "merge"):
             for verify in (False, True):
                 for root in ("inferred", "given"):
@@ -398,7 +398,8 @@ def run_lattice(p):
             # only files with rows contribute paths; with an inferred root every level is derivable when those
             # files lie in >= 2 distinct top-level directories
             distinct_dirs = len({use[i][2][0] for i in order if use[i][1]})
-            if root_mode in ("given", "given_slash") or distinct_dirs >= 2:
+            # a directory opened by name is its own root: every level below it is a partition level
+            if root_mode in ("given", "given_slash") or distinct_dirs >= 2 or entry == "dir":
                 for lvl, pcol in enumerate(pcols):
                     expk = [use[i][2][lvl] for i in order for r in use[i][1]]
                     if keys[lvl] is None:
@@ -454,7 +455,19 @@ def run_sub(p):
             kw = {"partition_on": ["p"]}
         name = ("y=%d" if kind == "part" else "sub%d") % i
         path = os.path.join(top, name)
-        fastparquet.write(path, pd.DataFrame(data), file_scheme="hive", write_index=False, **kw)
+        if kind == "merged":
+            # a directory of single files with the _metadata that merge() wrote for it: from three files the
+            # footer-gathering path (only the first chunk of a row group names its file), from two the legacy path
+            os.makedirs(path)
+            frame = pd.DataFrame(data)
+            cuts = [(0, 1), (1, 2), (2, 3)] if i != 1 else [(0, 2), (2, 3)]
+            parts = []
+            for k, (lo, hi) in enumerate(cuts):
+                parts.append(os.path.join(path, "f%d.parquet" % k))
+                fastparquet.write(parts[-1], frame.iloc[lo:hi], write_index=False)
+            writer.merge(parts, verify_schema=False)
+        else:
+            fastparquet.write(path, pd.DataFrame(data), file_scheme="hive", write_index=False, **kw)
         subs.append((path, rows, i))
     cols = ["a", "s"] + (["c"] if kind == "cat" else []) + (["p"] if kind == "part" else [])
     sigs = {}
